@@ -21,10 +21,16 @@ import (
 	"verif/engine/interp"
 )
 
-const (
-	verifDir = "/verif"
-	repoDir  = "/repo"
-)
+const verifDir = "/verif"
+
+// repoDir is /repo; VERIF_REPO redirects the checks to a scratch worktree (used
+// only to try seeded changes without touching /repo).
+var repoDir = func() string {
+	if d := os.Getenv("VERIF_REPO"); d != "" {
+		return d
+	}
+	return "/repo"
+}()
 
 type HarnessSpec struct {
 	Name       string         `json:"name"`
@@ -381,6 +387,10 @@ func runProperty(id, tier string) int {
 		}
 		cfg.Verbose = os.Getenv("VERIF_VERBOSE") != ""
 		cfg.InjectiveHash = hs.InjectiveHash
+		cfg.BudgetIsViolation = hs.BudgetIs == "violation"
+		if cfg.BudgetIsViolation && hs.MaxSteps == 0 {
+			cfg.MaxSteps = 2_000_000 // a bounded-size request needs far fewer steps
+		}
 		eng := interp.NewEngine(ld, cfg)
 		eng.Params = hs.Params
 		eng.MaxDigits = hs.MaxDigits
@@ -446,7 +456,11 @@ func runProperty(id, tier string) int {
 			path := filepath.Join(verifDir, "replays", id, fmt.Sprintf("%s-%s-%d-%d.json", hs.Name, tier, si, vi))
 			b, _ := json.MarshalIndent(rj, "", " ")
 			os.WriteFile(path, b, 0o644)
-			nr, err := rp.run(pkgRel, path, 120*time.Second)
+			replayCap := 120 * time.Second
+			if v.Kind == "hang" {
+				replayCap = 20 * time.Second
+			}
+			nr, err := rp.run(pkgRel, path, replayCap)
 			if err != nil {
 				out.inconclusive = append(out.inconclusive, fmt.Sprintf("%s: cannot replay: %v", hs.Name, err))
 				continue
@@ -461,6 +475,8 @@ func runProperty(id, tier string) int {
 				}
 			case "panic":
 				reproduced = nr.Outcome == "panic"
+			case "hang":
+				reproduced = nr.Outcome == "timeout"
 			}
 			if !reproduced {
 				out.inconclusive = append(out.inconclusive, fmt.Sprintf("%s: counterexample for %q does not reproduce natively (native outcome %s, failed %v) — engine or stub error; replay %s", hs.Name, v.Label, nr.Outcome, nr.Failed, path))
@@ -482,9 +498,19 @@ func runProperty(id, tier string) int {
 				fmt.Printf("  harness=%s label=%s kind=%s msg=%s inputs=%v\n", hs.Name, v.Label, v.Kind, v.Msg, vals)
 			}
 		}
-		// C17-style: budget exhaustion is the violation (confirmed natively under timeout)
+		// C17-style: budget exhaustion is the violation; it was turned into a "hang"
+		// violation above and confirmed natively under a timeout. A budget failure
+		// without such a violation (no model) stays inconclusive.
 		if hs.BudgetIs == "violation" && len(rep.BudgetFails) > 0 {
-			out.inconclusive = append(out.inconclusive, hs.Name+": step budget exceeded (possible non-termination): "+rep.BudgetFails[0])
+			hasHang := false
+			for _, v := range rep.Violations {
+				if v.Kind == "hang" {
+					hasHang = true
+				}
+			}
+			if !hasHang {
+				out.inconclusive = append(out.inconclusive, hs.Name+": step budget exceeded without a model: "+rep.BudgetFails[0])
+			}
 		}
 	}
 	ev.finish(time.Since(t0).Seconds(), len(out.violations), out.known, out.inconclusive)
